@@ -314,14 +314,20 @@ def run(case):
                     # points as tuples, units as Unit objects instead of lists / strings
                     pts = [tuple(pt) for pt in pts]
                     ulist = None if ulist is None else tuple(u.Unit(x) for x in ulist)
+                frozen = C.freeze([pts, ulist])
                 r = cube.crop_by_values(*pts, units=ulist, **kw)
-                item = cube._get_crop_by_values_item(*pts, units=ulist, **kw)
+                if C.freeze([pts, ulist]) != frozen:
+                    fails.append("crop_by_values edited the points / units the caller passed in")
+                item = cube._get_crop_by_values_item(*[list(p_) if isinstance(p_, list) else p_ for p_ in pts], units=ulist, **kw)
             else:
                 try:
                     pts = objects_form()
                 except RuntimeError:
                     continue
+                frozen = C.freeze([[repr(o) for o in p_] for p_ in pts])
                 r = cube.crop(*pts, **kw)
+                if C.freeze([[repr(o) for o in p_] for p_ in pts]) != frozen:
+                    fails.append("crop edited the points the caller passed in")
                 item = cube._get_crop_item(*pts, **kw)
             outcomes[form] = ("ok", r, item_json(item))
         except Exception as e:
